@@ -274,10 +274,13 @@ pub fn plant(s: &mut Src, base: &G) -> Planted {
         8 => {
             // two space-separated literals inside a word
             let pair = E::Seq(vec![lit("sp1"), lit("sp2")]);
-            let inner = match s.below(3) {
+            let inner = match s.below(5) {
                 0 => pair,
                 1 => E::Alt(vec![lit("c"), pair]),
-                _ => E::Opt(Box::new(pair)),
+                2 => E::Opt(Box::new(pair)),
+                // the first literal gets its description from the enclosing group
+                3 => E::Descr(Box::new(pair), "group descr".into()),
+                _ => E::Descr(Box::new(E::Alt(vec![lit("c"), pair])), "group descr".into()),
             };
             let levels = s.below(5);
             let piece = if levels == 0 { inner } else { chain_defs(s, &mut g, inner, levels, "SPC") };
